@@ -18,6 +18,33 @@ CLAIMED = {
         'correspondence harness; Coq kernel; no axioms (theorems closed under the global context).',
         'DESIGN.md section 4, C19',
     ),
+    'C01': (
+        'Coq proof by induction on fuel / expression / scan steps that reduce() preserves the denotation, for any rule '
+        'order and any leaf semantics satisfying the stated algebraic facts; T-tie (rule registry, class hierarchy, '
+        'method resolution regenerated from the package and compared in Coq); differential correspondence of reduce() '
+        'on real operator expressions (skeleton, structures, dense matrix)',
+        'reduce_sound: for every expression tree, registry order and fuel, if reduce returns e then every input the '
+        'original accepts gives the same output through e (model level, all inputs). The model is tied to the code by '
+        'regenerated tables (compiled and compared on every run) and by running reduce() of ~2400 (quick) / ~15000 '
+        '(thorough) real expressions against the vm_compute-evaluated model, with the dense matrix of reduce(e) also '
+        'compared with that of e on the implementation.',
+        'Partial: termination without raising and preservation of declared structures are not proved in Coq (checked '
+        'by the correspondence on every case). Trusts: leaf_facts for opaque operators (linearity, lazy inverse inverts), '
+        'the table translator, the harness, matrices of leaf operators measured on the real code, Coq kernel.',
+        'DESIGN.md section 4, C01',
+    ),
+    'C07': (
+        'Coq proof of the scan loop invariant (pairs left of index irreducible), of the scalar-count and identity-freedom '
+        'invariants, for any registry order; T-tie on the registry; structural correspondence of reduce() results',
+        'reduced_chain_is_normal / pattern_never_survives: in the result of the n-ary reduction no adjacent pair is '
+        'reducible by any registered rule, at most one scalar remains, no identity remains - for all chains, contexts and '
+        'lengths (model level). Tie: skeleton (classes, object identities, merged parameters, scalar position) of '
+        'reduce() on every documented pattern in 9 construction contexts, embedded at every position of typed contexts, '
+        'pairs of patterns and sampled chains, compared with the model; oracle re-applies the real rules to the result.',
+        'Partial: the placement of the remaining scalar on the smaller side is checked by correspondence and oracle, not '
+        'proved. Trusts the table translator, harness-assigned object identities, the harness, Coq kernel.',
+        'DESIGN.md section 4, C07',
+    ),
 }
 
 PENDING_REASON = 'check not built yet in this session (work in progress; see DESIGN.md section 8 for the order of work)'
